@@ -570,6 +570,13 @@ class Engine:
             # a modelling gap on this path only: no verdict for the path, the exploration goes on (exit 3 unless a
             # replayed counterexample turns up elsewhere)
             self.note('inconclusive-path: %s: %s' % (type(e).__name__, str(e)[:100]))
+        except Exception as e:
+            # an exception neither the harness nor the property expects on this path (typically the code under test doing
+            # something to a proxy that real values would survive, or a harness bug): no verdict for the path
+            import traceback
+            tb = traceback.extract_tb(e.__traceback__)
+            where = '%s:%d' % (tb[-1].filename.rsplit('/', 1)[-1], tb[-1].lineno) if tb else '?'
+            self.note('inconclusive-path: unexpected %s at %s: %s' % (type(e).__name__, where, str(e)[:80]))
         finally:
             self.solver.pop()
         self.stats.paths += 1
